@@ -58,7 +58,7 @@ Record wst := {
   werr : option werror;            (* c.writeErr *)
   deadline : N;                    (* c.writeDeadline *)
   wcomp : bool; level : Z;         (* enableWriteCompression, compressionLevel *)
-  evs : list tev;
+  revs : list tev;                 (* events, most recent first (see [evs]) *)
   keys : list bytes;               (* mask key oracle: what maskRand yields next *)
   tops : nat;                      (* transport operations performed *)
   fail_at : option (nat * fkind);  (* fault plan *)
@@ -66,12 +66,12 @@ Record wst := {
   oracle_short : bool              (* an oracle ran out (harness/model bug) *)
 }.
 #[export] Instance eta_wst : Settable _ :=
-  settable! Build_wst <held; cur; cur_flate; fl; ended; app; app_flate; werr; deadline; wcomp; level; evs; keys;
+  settable! Build_wst <held; cur; cur_flate; fl; ended; app; app_flate; werr; deadline; wcomp; level; revs; keys;
                        tops; fail_at; nextid; oracle_short>.
 
 Definition init_wst (c:wcfg) (ks:list bytes) (fa:option (nat * fkind)) : wst :=
   {| held := negb (w_pooled c); cur := None; cur_flate := false; fl := None; ended := []; app := None; app_flate := false;
-     werr := None; deadline := 0; wcomp := true; level := c_defaultCompressionLevel; evs := []; keys := ks;
+     werr := None; deadline := 0; wcomp := true; level := c_defaultCompressionLevel; revs := []; keys := ks;
      tops := 0; fail_at := fa; nextid := 0; oracle_short := false |}.
 
 Definition is_control_ty (t:N) : bool := (t =? c_CloseMessage) || (t =? c_PingMessage) || (t =? c_PongMessage).
@@ -80,7 +80,10 @@ Definition is_data_ty (t:N) : bool := (t =? c_TextMessage) || (t =? c_BinaryMess
 Definition write_fatal (e:werror) (s:wst) : wst :=
   match werr s with None => s <| werr := Some e |> | Some _ => s end.
 
-Definition log (e:tev) (s:wst) : wst := s <| evs := evs s ++ [e] |>.
+(* transport and pool events in program order *)
+Definition evs (s:wst) : list tev := rev' (revs s).
+
+Definition log (e:tev) (s:wst) : wst := s <| revs := e :: revs s |>.
 
 (* does the next transport operation fail? *)
 Definition next_fault (s:wst) : option fkind * wst :=
